@@ -474,7 +474,8 @@ MANIFEST = {
              "Default() and the verdict of probes at every bound +/- one unit (computed on digit strings). Each chain is rendered to a YANG module, compiled by the "
              "real compiler and probed; seeded random chains with random multi-part ranges are recorded and validated by the trace spec. Groups of 2-3 sibling "
              "leaves compiled in one module set (the same typedef chain of depth 2-4 refined differently, textually identical min/max restrictions over different "
-             "bases, both orders, one and two modules, random groups) are judged leaf by leaf: a leaf's type depends only on its own chain. TLC also proves on the "
+             "bases, both orders, one and two modules, random groups) are judged leaf by leaf: a leaf's type depends only on its own chain. The verdicts are also probed with the leaf in every context it can stand in "
+             "(mandatory, config false, status, if-feature, choice / case, list, presence container, grouping + uses, refine). TLC also proves on the "
              "spec that legal narrowing makes the innermost range sufficient and that Covered equals value-set inclusion.",
              note="bound texts in canonical form only; decimal64 parts one unit apart are judged non-contiguous; string length bounds stay below 2^31",
              design="4 C13", technique=TY),
@@ -484,7 +485,9 @@ MANIFEST = {
              "rejections the path and the custom error-message / error-app-tag of the violated restrictions. Probes are validated by Type().Validate of the compiled "
              "leaf; seeded random lexemes (digit strings around bounds, random Unicode) are recorded and validated by the trace spec. Several types with "
              "textually identical restriction arguments over different bases are compiled together (one module, two modules parsed with shared interners, both "
-             "orders) and each is judged by its own Accepts with the probes of all of them.",
+             "orders) and each is judged by its own Accepts with the probes of all of them. Unions whose members refine the same typedef "
+             "(different / equal / no inline restrictions; side by side, through nested typedef'd and inline unions, typedefs of the same name in two "
+             "modules; seeded random unions) are accepted iff some member accepts.",
              note="default messages and app-tags are not judged; union rejections carry no judged message; leading/trailing whitespace is not generated",
              design="4 C16", technique=TY),
 }
